@@ -2,148 +2,397 @@ package main
 
 import (
 	"go/ast"
+	"go/token"
 	"strings"
 )
 
-// C19: the wiring facts of C05 (alignment of every start block goes through CalculateStartingBlock in the evm and
-// substrate branches) plus, for the Bitcoin credit: inside ProcessDeposits no `range` over the resources map decides
-// which resource is tried first — the per-transaction loop ranges over a slice that was sorted with sort.Slice.
+// C19: the wiring facts of C05 (every start block goes through CalculateStartingBlock in the evm and substrate
+// branches) plus, located by SHAPE:
+//   * every message-id / session-id derivation: the format string of the fmt.Sprintf that builds it and its arguments
+//     NORMALISED to what they are — `p<i>` the i-th parameter of the exported method, `recv:<type>` a field of the
+//     receiver (by its type), `.<Field>` an exported field of some value, `local` anything computed locally,
+//     `hex(…)` for hex.EncodeToString — so that renaming a receiver, a local or an unexported helper, or moving the
+//     two statements into a same-file helper (one level is followed, parameters substituted) does not change the fact;
+//   * the Bitcoin matching loop: the loop that calls DecodeDepositEvent ranges (range or indexed) over the slice that
+//     was handed to sort.Slice, not over a map field of the receiver.
+// Everything is an Option; `none` = not located (T-tie unavailable for that fact).
+
+type c19Ctx struct {
+	file   *ast.File
+	fd     *ast.FuncDecl   // the method whose parameters are p0, p1, …
+	recv   string
+	pidx   map[string]int
+	ftypes map[string]string // receiver struct field -> type
+	inner  *gctx             // where the expression lives (fd itself or a helper)
+	subst  map[string]ast.Expr
+}
+
+func newC19Ctx(file *ast.File, fd *ast.FuncDecl) *c19Ctx {
+	c := &c19Ctx{file: file, fd: fd, pidx: map[string]int{}, ftypes: map[string]string{}}
+	g := newGctx(file, fd)
+	c.recv, c.inner = g.recv, g
+	i := 0
+	for _, p := range fd.Type.Params.List {
+		for _, n := range p.Names {
+			c.pidx[n.Name] = i
+			i++
+		}
+	}
+	if fd.Recv != nil && len(fd.Recv.List) == 1 {
+		t := fd.Recv.List[0].Type
+		if s, ok := t.(*ast.StarExpr); ok {
+			t = s.X
+		}
+		tn := Src(t)
+		for _, d := range file.Decls {
+			if gd, ok := d.(*ast.GenDecl); ok {
+				for _, sp := range gd.Specs {
+					if ts, ok := sp.(*ast.TypeSpec); ok && ts.Name.Name == tn {
+						if st, ok := ts.Type.(*ast.StructType); ok {
+							for _, fl := range st.Fields.List {
+								for _, n := range fl.Names {
+									c.ftypes[n.Name] = Src(fl.Type)
+								}
+							}
+						}
+					}
+				}
+			}
+		}
+	}
+	return c
+}
+
+// norm: what an id argument IS (see the file comment)
+func (c *c19Ctx) norm(e ast.Expr, depth int) string {
+	if depth > 8 {
+		return "local"
+	}
+	switch x := e.(type) {
+	case *ast.ParenExpr:
+		return c.norm(x.X, depth+1)
+	case *ast.Ident:
+		if s, ok := c.subst[x.Name]; ok { // a helper's parameter: what the caller passed
+			outer := *c
+			outer.subst = nil
+			outer.inner = newGctx(c.file, c.fd)
+			return outer.norm(s, depth+1)
+		}
+		if c.subst == nil {
+			if i, ok := c.pidx[x.Name]; ok && !c.shadowed(x) {
+				return "p" + itoaS(i)
+			}
+		}
+		if d, ok := c.inner.defs[x.Name]; ok {
+			if call, ok := d.(*ast.CallExpr); ok {
+				switch c05FunName(call.Fun) {
+				case "CalcTaprootSignatureHash":
+					return "sighash"
+				case "EncodeToString", "Sprintf":
+					return c.norm(d, depth+1)
+				}
+				return "local"
+			}
+			return c.norm(d, depth+1)
+		}
+		return "local"
+	case *ast.SelectorExpr:
+		if id, ok := x.X.(*ast.Ident); ok && id.Name == c.innerRecv() && id.Name != "" {
+			if t, ok := c.ftypes[x.Sel.Name]; ok {
+				return "recv:" + t
+			}
+			return "recv"
+		}
+		if ast.IsExported(x.Sel.Name) {
+			base := ""
+			if ix, ok := x.X.(*ast.IndexExpr); ok {
+				base = "[" + Src(ix.Index) + "]"
+			}
+			return base + "." + x.Sel.Name
+		}
+		return "local"
+	case *ast.SliceExpr:
+		return c.norm(x.X, depth+1)
+	case *ast.CallExpr:
+		if c05FunName(x.Fun) == "EncodeToString" && len(x.Args) == 1 {
+			return "hex(" + c.norm(x.Args[0], depth+1) + ")"
+		}
+		if c05FunName(x.Fun) == "Sprintf" && len(x.Args) >= 1 {
+			xs := []string{}
+			for _, a := range x.Args[1:] {
+				xs = append(xs, c.norm(a, depth+1))
+			}
+			return "fmt(" + strings.Trim(Src(x.Args[0]), "\"") + ";" + strings.Join(xs, ",") + ")"
+		}
+		return "local"
+	}
+	return "local"
+}
+
+func (c *c19Ctx) innerRecv() string { return c.inner.recv }
+
+// shadowed: is this identifier a parameter of an enclosing function literal rather than of the method?
+func (c *c19Ctx) shadowed(id *ast.Ident) bool {
+	sh := false
+	Walk(c.fd.Body, func(n ast.Node) bool {
+		fl, ok := n.(*ast.FuncLit)
+		if !ok || !(fl.Pos() <= id.Pos() && id.Pos() <= fl.End()) {
+			return true
+		}
+		for _, p := range fl.Type.Params.List {
+			for _, nm := range p.Names {
+				if nm.Name == id.Name {
+					sh = true
+				}
+			}
+		}
+		return true
+	})
+	return sh
+}
+
+func itoaS(i int) string {
+	if i == 0 {
+		return "0"
+	}
+	s := ""
+	for i > 0 {
+		s = string(rune('0'+i%10)) + s
+		i /= 10
+	}
+	return s
+}
+
+// sprintfIn: the fmt.Sprintf calls in body whose format (a literal) satisfies want
+func sprintfIn(body ast.Node, want func(string) bool) []*ast.CallExpr {
+	out := []*ast.CallExpr{}
+	Walk(body, func(n ast.Node) bool {
+		if c, ok := n.(*ast.CallExpr); ok && Src(c.Fun) == "fmt.Sprintf" && len(c.Args) >= 1 {
+			if l, ok := c.Args[0].(*ast.BasicLit); ok && l.Kind == token.STRING && want(strings.Trim(l.Value, "\"`")) {
+				out = append(out, c)
+			}
+		}
+		return true
+	})
+	return out
+}
+
+// idFormat: the id-building Sprintf of method fd (or of a same-file helper it calls, one level), normalised
+func idFormat(file *ast.File, fd *ast.FuncDecl, want func(string) bool) (string, string, bool) {
+	if file == nil || fd == nil {
+		return "", "", false
+	}
+	c := newC19Ctx(file, fd)
+	render := func(cc *c19Ctx, call *ast.CallExpr) (string, string) {
+		cc.inner.collectDefsAt(call.Pos())
+		xs := []string{}
+		for _, a := range call.Args[1:] {
+			xs = append(xs, cc.norm(a, 0))
+		}
+		return strings.Trim(Src(call.Args[0]), "\"`"), strings.Join(xs, ",")
+	}
+	if cs := sprintfIn(fd.Body, want); len(cs) == 1 {
+		f, a := render(c, cs[0])
+		return f, a, true
+	} else if len(cs) > 1 {
+		return "", "", false
+	}
+	// one level of same-file helpers
+	var resF, resA string
+	n := 0
+	Walk(fd.Body, func(m ast.Node) bool {
+		call, ok := m.(*ast.CallExpr)
+		if !ok {
+			return true
+		}
+		name := ""
+		switch f := call.Fun.(type) {
+		case *ast.Ident:
+			name = f.Name
+		case *ast.SelectorExpr:
+			if id, ok := f.X.(*ast.Ident); ok && id.Name == c.recv {
+				name = f.Sel.Name
+			}
+		}
+		if name == "" {
+			return true
+		}
+		for _, d := range file.Decls {
+			h, ok := d.(*ast.FuncDecl)
+			if !ok || h.Name.Name != name || h.Body == nil || h == fd {
+				continue
+			}
+			cs := sprintfIn(h.Body, want)
+			if len(cs) != 1 {
+				continue
+			}
+			hc := newC19Ctx(file, fd)
+			hc.inner = newGctx(file, h)
+			hc.subst = map[string]ast.Expr{}
+			i := 0
+			for _, p := range h.Type.Params.List {
+				for _, pn := range p.Names {
+					if i < len(call.Args) {
+						hc.subst[pn.Name] = call.Args[i]
+					}
+					i++
+				}
+			}
+			resF, resA = render(hc, cs[0])
+			n++
+		}
+		return true
+	})
+	return resF, resA, n == 1
+}
+
 func init() {
 	extractors["C19"] = func(o *Out) {
 		extractors["C05"](o)
-		f := o.ParseFile("chains/btc/listener/event-handlers.go")
-		fd := FindFunc(f, "FungibleTransferEventHandler", "ProcessDeposits")
-		sorted, innerOverMap, innerOverSlice := false, false, false
-		sortedName := ""
-		if fd != nil {
+		pair := func(name, f, a string, ok bool, why string) {
+			o.Facts[name] = f + " <- " + a
+			if !ok {
+				o.Unavailable(name, why)
+			}
+			o.Lean.WriteString("def " + name + " : Option (String × String) := " + LeanOpt(ok, LeanStr(f)+", "+LeanStr(a)) + "\n")
+		}
+		has := func(sub string) func(string) bool { return func(s string) bool { return strings.Contains(s, sub) } }
+		// message ids
+		for _, it := range [][4]string{
+			{"chains/evm/listener/eventHandlers/deposit.go", "DepositEventHandler", "ProcessDeposits", "evmDepositFmt"},
+			{"chains/substrate/listener/event-handlers.go", "FungibleTransferEventHandler", "ProcessDeposits", "subDepositFmt"},
+			{"chains/btc/listener/deposit-handler.go", "BtcDepositHandler", "HandleDeposit", "btcDepositFmt"},
+			{"chains/evm/listener/eventHandlers/retry.go", "RetryV1EventHandler", "HandleEvents", "evmRetryV1Fmt"},
+			{"chains/evm/listener/eventHandlers/retry.go", "RetryV2EventHandler", "HandleEvents", "evmRetryV2Fmt"},
+			{"chains/substrate/listener/event-handlers.go", "RetryEventHandler", "HandleEvents", "subRetryFmt"},
+		} {
+			ff := o.ParseFile(it[0])
+			f, a, ok := idFormat(ff, FindFunc(ff, it[1], it[2]), has("%d-%d"))
+			pair(it[3], f, a, ok, "the fmt.Sprintf that builds the message id was not located in "+it[1]+"."+it[2]+" or one helper level below")
+		}
+		// Bitcoin executor: the method of Executor that calls NewSigning (found by that call, its own name may change)
+		bf := o.ParseFile("chains/btc/executor/executor.go")
+		var bm *ast.FuncDecl
+		if bf != nil {
+			for _, d := range bf.Decls {
+				if m, ok := d.(*ast.FuncDecl); ok && m.Recv != nil && m.Body != nil && c05CallsNamed(m.Body, "NewSigning") {
+					bm = m
+				}
+			}
+		}
+		f1, a1, ok1 := idFormat(bf, bm, has("%s-%s"))
+		pair("btcTransferSession", f1, a1, ok1, "the transfer-wide session id Sprintf was not located")
+		perInput, okIn := "", false
+		if bm != nil {
+			c := newC19Ctx(bf, bm)
+			Walk(bm.Body, func(n ast.Node) bool {
+				if call, ok := n.(*ast.CallExpr); ok && c05FunName(call.Fun) == "NewSigning" && len(call.Args) >= 5 {
+					c.inner.collectDefsAt(call.Pos())
+					perInput, okIn = c.norm(call.Args[4], 0), true
+				}
+				return true
+			})
+		}
+		o.Facts["btcInputSession"] = perInput
+		if !okIn {
+			o.Unavailable("btcInputSession", "the frost NewSigning call of the Bitcoin executor was not located")
+		}
+		o.Lean.WriteString("def btcInputSession : Option String := " + LeanOpt(okIn, LeanStr(perInput)) + "\n")
+		// Substrate executor: message id and session id handed to NewSigning
+		sf := o.ParseFile("chains/substrate/executor/executor.go")
+		sa, okS := "", false
+		if fd := FindFunc(sf, "Executor", "Execute"); fd != nil {
+			c := newC19Ctx(sf, fd)
 			Walk(fd.Body, func(n ast.Node) bool {
-				if c, ok := n.(*ast.CallExpr); ok && Src(c.Fun) == "sort.Slice" && len(c.Args) == 2 {
-					sorted = true
+				if call, ok := n.(*ast.CallExpr); ok && c05FunName(call.Fun) == "NewSigning" && len(call.Args) >= 3 {
+					c.inner.collectDefsAt(call.Pos())
+					sa, okS = c.norm(call.Args[1], 0)+","+c.norm(call.Args[2], 0), true
+				}
+				return true
+			})
+		}
+		o.Facts["subSessionArgs"] = sa
+		if !okS {
+			o.Unavailable("subSessionArgs", "the NewSigning call of the Substrate executor was not located")
+		}
+		o.Lean.WriteString("def subSessionArgs : Option String := " + LeanOpt(okS, LeanStr(sa)) + "\n")
+		// Bitcoin matching loop
+		lf := o.ParseFile("chains/btc/listener/event-handlers.go")
+		located, sorted := false, false
+		if fd := FindFunc(lf, "FungibleTransferEventHandler", "ProcessDeposits"); fd != nil {
+			g := newGctx(lf, fd)
+			sortedName := ""
+			Walk(fd.Body, func(n ast.Node) bool {
+				if c, ok := n.(*ast.CallExpr); ok && (Src(c.Fun) == "sort.Slice" || Src(c.Fun) == "sort.SliceStable" || Src(c.Fun) == "slices.SortFunc") && len(c.Args) == 2 {
 					sortedName = Src(c.Args[0])
 				}
 				return true
 			})
-			// the loop that calls DecodeDepositEvent
+			overSorted := func(x ast.Expr) bool { return sortedName != "" && Src(x) == sortedName }
 			Walk(fd.Body, func(n ast.Node) bool {
-				rs, ok := n.(*ast.RangeStmt)
-				if !ok || !strings.Contains(Src(rs.Body), "DecodeDepositEvent(") || strings.Contains(Src(rs.X), "evts") {
-					return true
-				}
-				if Src(rs.X) == "eh.resources" {
-					innerOverMap = true
-				}
-				if sortedName != "" && Src(rs.X) == sortedName {
-					innerOverSlice = true
-				}
-				return true
-			})
-		}
-		o.Facts["btc_resources_sorted"] = sorted
-		o.Facts["btc_match_loop_over_map"] = innerOverMap
-		o.Facts["btc_match_loop_over_sorted_slice"] = innerOverSlice
-		b := func(x bool) string {
-			if x {
-				return "true"
-			}
-			return "false"
-		}
-		o.Lean.WriteString("def btcMatchLoopOverSortedSlice : Bool := " + b(sorted && innerOverSlice && !innerOverMap) + "\n")
-		// message id format strings
-		for _, it := range [][3]string{{"chains/evm/listener/eventHandlers/deposit.go", "DepositEventHandler", "evmDepositFmt"},
-			{"chains/substrate/listener/event-handlers.go", "FungibleTransferEventHandler", "subDepositFmt"},
-			{"chains/btc/listener/deposit-handler.go", "BtcDepositHandler", "btcDepositFmt"}} {
-			ff := o.ParseFile(it[0])
-			fmtS, args := "", ""
-			meth := "ProcessDeposits"
-			if it[2] == "btcDepositFmt" {
-				meth = "HandleDeposit"
-			}
-			if d := FindFunc(ff, it[1], meth); d != nil {
-				Walk(d.Body, func(n ast.Node) bool {
-					if as, ok := n.(*ast.AssignStmt); ok && len(as.Lhs) == 1 && Src(as.Lhs[0]) == "messageID" {
-						if c, ok := as.Rhs[0].(*ast.CallExpr); ok && Src(c.Fun) == "fmt.Sprintf" && len(c.Args) >= 2 {
-							fmtS = strings.Trim(Src(c.Args[0]), "\"")
-							xs := []string{}
-							for _, a := range c.Args[1:] {
-								xs = append(xs, Src(a))
-							}
-							args = strings.Join(xs, ",")
-						}
+				switch l := n.(type) {
+				case *ast.RangeStmt:
+					if !c05CallsNamed(l.Body, "DecodeDepositEvent") || c05CallsNamed(l.Body, "CalculateNonce") && false {
+						return true
 					}
-					return true
-				})
-			}
-			o.Facts[it[2]] = fmtS + " <- " + args
-			o.Lean.WriteString("def " + it[2] + " : String × String := (" + LeanStr(fmtS) + ", " + LeanStr(args) + ")\n")
-		}
-		// every other id derivation: `<var> := fmt.Sprintf(fmt, args…)` / `<var> := hex.EncodeToString(x)` inside a method
-		sprintf := func(file, recv, meth, variable string) (string, string) {
-			ff := o.ParseFile(file)
-			fmtS, args := "", ""
-			if d := FindFunc(ff, recv, meth); d != nil {
-				Walk(d.Body, func(n ast.Node) bool {
-					if as, ok := n.(*ast.AssignStmt); ok && len(as.Lhs) == 1 && Src(as.Lhs[0]) == variable && len(as.Rhs) == 1 {
-						if c, ok := as.Rhs[0].(*ast.CallExpr); ok {
-							xs := []string{}
-							switch Src(c.Fun) {
-							case "fmt.Sprintf":
-								fmtS = strings.Trim(Src(c.Args[0]), "\"")
-								for _, a := range c.Args[1:] {
-									xs = append(xs, Src(a))
-								}
-							default:
-								fmtS = Src(c.Fun)
-								for _, a := range c.Args {
-									xs = append(xs, Src(a))
-								}
+					// the innermost loop that contains the call decides
+					inner := false
+					Walk(l.Body, func(m ast.Node) bool {
+						switch k := m.(type) {
+						case *ast.RangeStmt:
+							if c05CallsNamed(k.Body, "DecodeDepositEvent") {
+								inner = true
 							}
-							args = strings.Join(xs, ",")
+						case *ast.ForStmt:
+							if c05CallsNamed(k.Body, "DecodeDepositEvent") {
+								inner = true
+							}
 						}
+						return true
+					})
+					if inner {
+						return true
 					}
-					return true
-				})
-			}
-			return fmtS, args
-		}
-		for _, it := range [][5]string{
-			{"chains/evm/listener/eventHandlers/retry.go", "RetryV1EventHandler", "HandleEvents", "messageID", "evmRetryV1Fmt"},
-			{"chains/evm/listener/eventHandlers/retry.go", "RetryV2EventHandler", "HandleEvents", "messageID", "evmRetryV2Fmt"},
-			{"chains/substrate/listener/event-handlers.go", "RetryEventHandler", "HandleEvents", "messageID", "subRetryFmt"},
-		} {
-			f1, a1 := sprintf(it[0], it[1], it[2], it[3])
-			o.Facts[it[4]] = f1 + " <- " + a1
-			o.Lean.WriteString("def " + it[4] + " : String × String := (" + LeanStr(f1) + ", " + LeanStr(a1) + ")\n")
-		}
-		// BTC executor: the transfer-wide id is the FIRST assignment to sessionID in executeResourceProps, the per-input id
-		// the one inside the loop over tx.TxIn; Substrate executor: NewSigning(msg, messageID, messageID, …)
-		bf := o.ParseFile("chains/btc/executor/executor.go")
-		all := []string{}
-		if d := FindFunc(bf, "Executor", "executeResourceProps"); d != nil {
-			Walk(d.Body, func(n ast.Node) bool {
-				if as, ok := n.(*ast.AssignStmt); ok && len(as.Lhs) == 1 && Src(as.Lhs[0]) == "sessionID" {
-					all = append(all, Src(as.Rhs[0]))
+					located = true
+					if overSorted(l.X) {
+						sorted = true
+					} else if s, ok := l.X.(*ast.SelectorExpr); ok && Src(s.X) == g.recv {
+						sorted = false // ranges over a field of the receiver: the resources map
+					} else {
+						located = false
+					}
+				case *ast.ForStmt:
+					inner := false
+					Walk(l.Body, func(m ast.Node) bool {
+						switch k := m.(type) {
+						case *ast.RangeStmt:
+							if c05CallsNamed(k.Body, "DecodeDepositEvent") {
+								inner = true
+							}
+						case *ast.ForStmt:
+							if c05CallsNamed(k.Body, "DecodeDepositEvent") {
+								inner = true
+							}
+						}
+						return true
+					})
+					if inner || !c05CallsNamed(l.Body, "DecodeDepositEvent") {
+						return true
+					}
+					located = true
+					sorted = sortedName != "" && l.Cond != nil && strings.Contains(Src(l.Cond), "len("+sortedName+")")
 				}
 				return true
 			})
 		}
-		o.Facts["btc_session_assignments"] = all
-		o.Lean.WriteString("def btcSessionAssignments : List String := " + LeanStrList(all) + "\n")
-		sf := o.ParseFile("chains/substrate/executor/executor.go")
-		sargs := []string{}
-		smsg := ""
-		if d := FindFunc(sf, "Executor", "Execute"); d != nil {
-			Walk(d.Body, func(n ast.Node) bool {
-				if c, ok := n.(*ast.CallExpr); ok && Src(c.Fun) == "signing.NewSigning" && len(c.Args) >= 3 {
-					sargs = []string{Src(c.Args[1]), Src(c.Args[2])}
-				}
-				if as, ok := n.(*ast.AssignStmt); ok && len(as.Lhs) == 1 && Src(as.Lhs[0]) == "messageID" {
-					smsg = Src(as.Rhs[0])
-				}
-				return true
-			})
+		o.Facts["btc_match_loop"] = map[string]bool{"located": located, "over_sorted_slice": sorted}
+		if !located {
+			o.Unavailable("btcMatchLoopOverSortedSlice", "the loop that calls DecodeDepositEvent was not located in ProcessDeposits")
 		}
-		sargs = append([]string{smsg}, sargs...)
-		o.Facts["sub_session_args"] = sargs
-		o.Lean.WriteString("def subSessionArgs : List String := " + LeanStrList(sargs) + "\n")
+		sb := "false"
+		if sorted {
+			sb = "true"
+		}
+		o.Lean.WriteString("def btcMatchLoopOverSortedSlice : Option Bool := " + LeanOpt(located, sb) + "\n")
 	}
 }
